@@ -35,7 +35,7 @@ func init() {
 	contextFunctions[symbols.NT_StepWithAxisAndNodeTest] = leftRightDependentResult
 	contextFunctions[symbols.NT_StepWithAxisAndNodeTestAndPredicate] = leftRightDependentResult
 	contextFunctions[symbols.NT_StepWithPredicateWithAnotherPredicate] = leftRightDependentResult
-	contextFunctions[symbols.NT_FilterExprWithPredicate] = leftRightDependentResult
+	contextFunctions[symbols.NT_FilterExprWithPredicate] = execFilterExprWithPredicate
 	contextFunctions[symbols.NT_AxisName] = execAxisName
 	contextFunctions[symbols.NT_AbbreviatedStepParent] = execAbbreviatedStepParent
 	contextFunctions[symbols.NT_AbbreviatedAxisSpecifier] = execAbbreviatedAxisSpecifier
@@ -91,6 +91,31 @@ func execStep(context *exprContext, expr *grammar.Grammar) error {
 	}
 
 	return execContext(context, expr.Next(nextBsr))
+}
+
+func execFilterExprWithPredicate(context *exprContext, expr *grammar.Grammar) error {
+	children := make([]*bsr.BSR, 0, 2)
+
+	for _, cn := range expr.BSR.GetAllNTChildren() {
+		for _, c := range cn {
+			children = append(children, &c)
+		}
+	}
+
+	if err := execContext(context, expr.Next(children[0])); err != nil {
+		return err
+	}
+
+	// A predicate on a filter expression numbers the nodes in document order,
+	// whatever order the expression produced them in.  The node-set may be
+	// owned by the caller, so it is sorted in a copy.
+	if nodeSet, ok := context.result.(NodeSet); ok {
+		sorted := make(NodeSet, len(nodeSet))
+		copy(sorted, nodeSet)
+		context.result = unionCleanup(sorted)
+	}
+
+	return execContext(context, expr.Next(children[1]))
 }
 
 func execPredicate(context *exprContext, expr *grammar.Grammar) error {
